@@ -7,6 +7,12 @@ props = [json.loads(l) for l in open('/verif/properties.jsonl')]
 
 # id -> (technique, level text, level note)
 CHECKS = {
+ "C15": ("explicit-state BFS to closure over the real Encapsulator with a wire monitor",
+         "The reachable state space of the real Encapsulator (cloned per transition) under send x {6 labels} x {complete, first fragment, encap_ext complete/first fragment, 4 failing calls}, zero label, reset, disable, enable, enable-with-max(N) is explored to closure (no depth bound; the counter climbs through all 256 values under N=255); a monitor of what the wire carried judges every emitted start/complete packet (disabled => no substitution, at most N consecutive, full label after reset/broadcast, substitution only for the immediately preceding label).",
+         "trusted: the monitor (40 lines) and its rule that the consecutive count restarts when the configuration changes; label alphabet of 6 letters"),
+ "C17": ("explicit-state BFS (depth-bounded, state merging) with per-transition refinement check against a bag-and-slots reference",
+         "Every sequence of provision / new_pdu / new_frag / take_frag / save_frag up to depth 7 (8 thorough) over aliasing and non-aliasing ids, for 1..2 (1..4 thorough) slots and buffers below/at/above the configured size, is executed on the real SimpleGseMemory (restored through the capacity-preserving hook); each return value and successor state is compared with the reference model.",
+         "trusted: the hook's restore fidelity (asserted), the reference transition rules in c17.rs"),
  "C01": ("exhaustive lattice enumeration: real encap then real decap of exactly the reported bytes",
          "Every PDU length 0..=4100 x label kind x re-use row (enabled/disabled, directly after the same label) x buffer lengths around the exact packet size and beyond 4097 x storage sizes >= PDU is executed through the real sender and a real receiver kept in lock-step; all payload contents of length 0..=1 (0..=2 thorough) and all protocol types >= 0x0600 (thorough) are swept; the completed-iff-fits rule is evaluated in every cell.",
          "trusted: the arithmetic statement of 'fits' (2+label+PDU <= 4095 and packet <= buffer); contents beyond 2 bytes represented by 4 patterns"),
